@@ -186,6 +186,47 @@ func (c *Ctx) newFsWorld(ro *Roles) (*fsWorld, *entryWorld, string) {
 	return w, ew, ""
 }
 
+// reachesFile: values of type t can hold an *os.File, directly or through module structs, slices, arrays and
+// sync/atomic pointers (an immutable snapshot {curr, prev *os.File} behind an atomic.Pointer, a two-slot ring …).
+func reachesFile(t types.Type, depth int) bool {
+	if depth > 4 {
+		return false
+	}
+	if isFileHolder(t) {
+		return true
+	}
+	switch u := t.(type) {
+	case *types.Pointer:
+		return reachesFile(u.Elem(), depth+1)
+	case *types.Slice:
+		return reachesFile(u.Elem(), depth+1)
+	case *types.Array:
+		return reachesFile(u.Elem(), depth+1)
+	case *types.Named:
+		if u.Obj().Pkg() != nil && u.Obj().Pkg().Path() == "sync/atomic" && u.Obj().Name() == "Pointer" && u.TypeArgs() != nil && u.TypeArgs().Len() == 1 {
+			return reachesFile(u.TypeArgs().At(0), depth+1)
+		}
+		if u.Obj().Pkg() == nil || !strings.HasPrefix(u.Obj().Pkg().Path(), logPath) {
+			return false
+		}
+		if st, ok := u.Underlying().(*types.Struct); ok {
+			for i := 0; i < st.NumFields(); i++ {
+				if reachesFile(st.Field(i).Type(), depth+1) {
+					return true
+				}
+			}
+		}
+		return reachesFile(u.Underlying(), depth+1)
+	case *types.Struct:
+		for i := 0; i < u.NumFields(); i++ {
+			if reachesFile(u.Field(i).Type(), depth+1) {
+				return true
+			}
+		}
+	}
+	return false
+}
+
 func (c *Ctx) checkFileAppenderSemantics(r *Report, ro *Roles, rule string) map[string]bool {
 	if c.fsMemo != nil {
 		return c.fsMemo
@@ -204,7 +245,7 @@ func (c *Ctx) checkFileAppenderSemantics(r *Report, ro *Roles, rule string) map[
 		findFields = func(t *types.Struct, path []int) {
 			for i := 0; i < t.NumFields(); i++ {
 				ft := t.Field(i).Type()
-				if isFileHolder(ft) {
+				if isFileHolder(ft) || reachesFile(ft, 0) {
 					holders++
 				}
 				if isNamed(ft, "time", "Duration") {
@@ -614,7 +655,9 @@ func fileAppenderDecisions(r *Report, ok map[string]bool) {
 		case "C20":
 			r.Decide([]string{"C20.direct:", "C05.fd-bound:"}, match, tn+" evaluated: the line is written before the call returns")
 		case "C14":
-			r.Decide([]string{"C14.async:"}, nil, tn+" evaluated: retention is launched with go")
+			// only for the appender's own methods: a synchronous cleanup called from somewhere else (a logger's start-up)
+			// is not covered by this evaluation
+			r.Decide([]string{"C14.async:"}, match, tn+" evaluated: retention is launched with go")
 		}
 	}
 }
